@@ -10,7 +10,7 @@
   * `normpath`     = `os.path.normpath` (also collapses `x/..`, keeps leading `..` of a relative
     path, drops `..` at the root); the result `"."` is the empty component list;
   * `abspath`      = the local helper `abspath(p)` of `_set_files`
-                     (`normpath(p)` if absolute else `Path.cwd() / normpath(p)`);
+                     (`normpath(os.path.join(os.getcwd(), p))`, since /repo 42ec9ba);
   * `relativeTo`   = `PurePath.relative_to` (`none` = `ValueError`);
   * `commonpath`   = `os.path.commonpath` on relative paths (`none` = `ValueError` on `[]`);
   * `relpath`      = `os.path.relpath(path, start)` evaluated in working directory `cwd`.
@@ -44,10 +44,12 @@ def normStep (abs : Bool) (stack : List String) (c : String) : List String :=
 
 def normpath (abs : Bool) (cs : Comps) : Comps := (cs.foldl (normStep abs) []).reverse
 
-/-- `abspath(p)` of `_set_files`; the result is an absolute path (components below `/`).
-    `Path.cwd() / "."` is `Path.cwd()`, which is why `normpath = "."` is the empty list. -/
+/-- `abspath(p)` of `_set_files`: `Path(os.path.normpath(os.path.join(os.getcwd(), p)))` — the
+    join with an absolute `p` is `p`; `..` segments are collapsed *after* joining, so the result
+    (components below `/`) contains none.  (Before /repo 42ec9ba: `cwd / normpath(p)`, which kept
+    the `..` that climb out of the cwd — recorded defects D15b, D15d.) -/
 def abspath (cwd : Comps) (p : PPath) : Comps :=
-  if p.abs then normpath true p.comps else cwd ++ normpath false p.comps
+  normpath true (if p.abs then p.comps else cwd ++ p.comps)
 
 def relativeTo (a b : Comps) : Option Comps :=
   if b.isPrefixOf a then some (a.drop b.length) else none
